@@ -2,6 +2,7 @@
 thread passes a given queue / file operation - is held for a while, everything else runs free.  Used by C16 as the
 protocol-independent fallback: whatever the threads do between the points, a correct pipeline returns the sequential file."""
 import builtins
+import os
 import contextlib
 import queue
 import threading
@@ -155,21 +156,34 @@ def installed(ctl):
                 setattr(m, n, old)
 
 
-def execute(thunk, out_path, target=None, delay=0.25, settle=0.4):
+def execute(thunk, out_path, target=None, delay=0.25, settle=0.4, limit=40):
     """-> dict(keys, data, late, error)"""
     ctl = Ctl(out_path, target, delay)
     err = None
     with installed(ctl):
-        try:
-            thunk()
-        except BaseException as e:
-            if isinstance(e, (KeyboardInterrupt, SystemExit, MemoryError)):
-                raise
-            err = f'{type(e).__name__}: {e}'
+        # the conversion runs in a thread of its own so that one that never returns (a join nobody satisfies) is reported, not waited for
+        box = {}
+
+        def body():
+            try:
+                thunk()
+            except BaseException as e:
+                box['err'] = f'{type(e).__name__}: {e}'
+        t = threading.Thread(target=body, name='vz-conversion', daemon=True)
+        t.start()
+        t.join(limit)
+        if t.is_alive():
+            err = f'did not return within {limit} s'
+        else:
+            err = box.get('err')
         ctl.returned = True
-        with builtins.open(out_path, 'rb') as f:
-            at_return = f.read()
+        at_return = b''
+        if os.path.exists(out_path):
+            with builtins.open(out_path, 'rb') as f:
+                at_return = f.read()
         time.sleep(settle if target is not None else 0.05)
-    with builtins.open(out_path, 'rb') as f:
-        later = f.read()
+    later = b''
+    if os.path.exists(out_path):
+        with builtins.open(out_path, 'rb') as f:
+            later = f.read()
     return {'keys': ctl.keys, 'data': at_return, 'changed_after_return': later != at_return, 'late': ctl.late, 'error': err, 'thread_errors': ctl.errors[:2]}
